@@ -379,10 +379,7 @@ def evaluate(case):
             # the same parser object first gets a text it must reject (never closed comment, foreign character, text cut
             # short): whatever that call leaves behind must not touch the next one
             bad = ["[ a /* never closed", "a $ b", text[:max(0, len(text) // 2)] + " /*", "{ a : ", "( ( ("][inst["poison"] % 5]
-            try:
-                parser.parse(bad)
-            except Exception:   # noqa
-                pass
+            parse_guarded(L, parser, bad, len(toks) + 8, budget=60000)      # outcome irrelevant, but must not hang
             classes.add("rejected_text_parsed_before")
         kind, res, _st = parse_guarded(L, parser, text, len(toks))
         evals += 1
